@@ -10,7 +10,15 @@ steps are `rfl`), and through it (b) to the hand-written model `Landscape.sweep`
 (`src_compute_landscape_eq_model`, for ALL inputs over a linear ordered field; the inductions are in Lemmas/SrcBridgeSweep.lean).
 
 Semantics of the subset (the translator's conventions):
-  * straight-line code is SSA-renamed (`x`, `x_1`, ...), every assignment is a `let`; a Python name has ONE type;
+  * straight-line code is SSA-renamed (`x`, `x_1`, ...), every assignment is a `let`; a Python name has ONE type; within one
+    generated definition no binder is handed out twice, and a binder the translator makes up (an SSA version `x_k`, a hoisted
+    `v`, the popped `pop`) is never an identifier of the Python method (a local SPELLED `ind_1` cannot be captured by the
+    second version of `ind`), nor a Lean name the generated text uses;
+  * DEAD STORES are refused: every `let`, every result of a loop, every value of an `if`, every parameter of a loop definition
+    must be read below its binding (a binding that nothing reads is what `rfl` absorbs; in the source it is a store to a name
+    that lives beyond the translated statements -- `self.attr`, a parameter, a name another round reads).  A store to a
+    `self.attr` that is not a declared output of the region is refused where it stands.  Reviewed exceptions: the table
+    `dead_ok`, printed below;
   * values: a float is `α`; a 2-list `[b, d]` of floats is a pair; a list of them a `List`; `np.inf` / `-np.inf` occur only
     as the first entry of a critical point `[np.inf, 0]` / `[-np.inf, 0]`, which is a pair `XR α × α`
     (`SrcLib.Sweep.XR`: `negInf | fin a | posInf`; a finite first entry `e` is `XR.fin e`), and in `x == np.inf` for a death that may be
@@ -37,7 +45,13 @@ Semantics of the subset (the translator's conventions):
   * `a > b` is written `b < a`, `a >= b` is `b ≤ a`; `l == [b, d]` is `==` of pairs (componentwise `&&`);
   * lists are VALUES: `L.append(L[-1])` appends a copy, in the source it is the same list object.  The two agree as long as no
     `extend` reaches a depth that has been copied; here every `extend` goes to `L[landscape_idx]` under the loop test
-    `L[landscape_idx][-1] != [np.inf, 0]`, and only depths that end in `[np.inf, 0]` are copied;
+    `L[landscape_idx][-1] != [np.inf, 0]`, and only depths that end in `[np.inf, 0]` are copied.  That statement is the ONLY
+    place (table `alias_ok`, printed below) where a list that is already stored -- a name, an element `l[i]` -- is stored a
+    second time: `y = x`, `y = l[i]`, `l.append(x)`, `l.insert(i, x)`, `[x, …]`, `[x for …]`, `a, y = …, x`, `y = l.pop(i)` on
+    a list-valued `x`, and the shallow copies `sorted(l)`, `l[1:-1]`, `[v for v in l if c]`, `m.extend(l)`, `enumerate(l)` of a
+    list of LISTS are outside the subset (2-lists `[b, d]` are pairs: nothing of the subset can change one in place);
+  * the variables of a `for` live in the loop's own definition: one that is bound before the loop or read behind it (Python: its
+    last value) is outside the subset;
   * statements that are no-ops of the computation are NOT translated and stay in the skeleton text: calls of `verboseprint`
     and the guarded verification hook `if _VERIF_TRACE is not None: …`.
 What is not translated is pinned as text: `srcSkeleton_compute_landscape` (the method with every translated statement
@@ -46,6 +60,7 @@ replaced by `...` and every translated loop / branch header by `while ...:` / `f
 """
 import ast
 import os
+import re
 
 from .py2lean import (Shape, LEAN_RESERVED, lean_str, strip_doc, GEN, bindings_section, render_signature, signature_text,
                       sanitize, not_translated, not_translated_comment)
@@ -142,6 +157,15 @@ def par(e, minp):
     return "(%s)" % e.t if e.p < minp else e.t
 
 
+def is_list(t):
+    return isinstance(t, tuple) and t[0] == "list"
+
+
+def is_ref(n):
+    """an expression that evaluates to an EXISTING object: a name, an element `l[i]`"""
+    return isinstance(n, ast.Name) or (isinstance(n, ast.Subscript) and not isinstance(n.slice, ast.Slice))
+
+
 # ----------------------------------------------------------------------------- IR
 
 class Ret:
@@ -165,8 +189,9 @@ class Let:
 
 
 class MatchOpt:
-    def __init__(self, text, pat, body):
+    def __init__(self, text, pat, body, strict=False):
         self.text, self.pat, self.body = text, pat, body
+        self.strict = strict                    # the pattern binds results of a loop: each must be read (check_live)
 
 
 class Ite:
@@ -224,6 +249,72 @@ def render(n, ind, opt=True):
         inner = render(n.inner, ind + "    ", False)
         return [ind + "let %s :=" % n.pat] + inner + render(n.body, ind, opt)
     raise Shape("internal: IR node %r" % (n,))
+
+
+# ----------------------------------------------------------------------------- generated names, dead bindings
+
+# Lean identifiers that the generated text itself uses: never the name of a binder
+# Python names that the translation resolves by SPELLING (their module-level bindings are pinned): never bound locally
+SPELLED = {"np", "len", "all", "sorted", "enumerate", "range", "_VERIF_TRACE"}
+SWEEP_RESERVED = {"fuel", "range", "rest", "some", "none", "isInf", "pySortedBy", "pyInsert", "XR", "Option", "Bool", "not", "id",
+                  "trailing_inf", "compute_landscape", "outer_loop", "inner_loop", "dup_loop", "pop_loop", "shortcut_loop", "ind_loop",
+                  "cnt_loop"}
+
+_IDENT = re.compile(r"(?<![\w.'])[A-Za-z_][\w']*")
+
+
+def idents(text):
+    """identifiers a Lean text mentions (field names behind a `.` are not)"""
+    return set(_IDENT.findall(text))
+
+
+def node_idents(n):
+    """every identifier mentioned anywhere in an IR subtree (patterns included: binders are unique per definition, so a binder is
+    mentioned below its binding iff it is read)"""
+    if isinstance(n, Ret):
+        return set().union(*[idents(v) for v in n.vals]) if n.vals else set()
+    if isinstance(n, Fail):
+        return set()
+    if isinstance(n, Tail):
+        return idents(n.text)
+    if isinstance(n, Let):
+        return idents(n.text) | node_idents(n.body)
+    if isinstance(n, MatchOpt):
+        return idents(n.text) | node_idents(n.body)
+    if isinstance(n, Ite):
+        return idents(n.cond) | node_idents(n.a) | node_idents(n.b)
+    if isinstance(n, MatchFuel):
+        return node_idents(n.body)
+    if isinstance(n, Join):
+        return node_idents(n.inner) | node_idents(n.body)
+    raise Shape("internal: IR node %r" % (n,))
+
+
+def check_live(n, where, allow):
+    """DEAD STORES: a binding of the generated definition `where` that nothing below it reads is refused -- `rfl` would absorb it
+    (zeta), and in the source it is a store to a name that lives beyond the translated statements (a parameter, `self.attr`, a
+    name of an enclosing round).  `allow`: the reviewed (definition, binder) pairs printed in the header"""
+    def need(names, body, what):
+        live = node_idents(body)
+        for nm in names:
+            if nm not in live and nm != "_" and (where, nm) not in allow:
+                raise Shape("dead store: `%s` (%s) of `%s` is never read" % (nm, what, where))
+    if isinstance(n, Let):
+        need(idents(n.pat), n.body, "let … := %s" % n.text[:60])
+        check_live(n.body, where, allow)
+    elif isinstance(n, MatchOpt):
+        if n.strict:
+            need(idents(n.pat), n.body, "result of %s" % n.text[:60])
+        check_live(n.body, where, allow)
+    elif isinstance(n, Ite):
+        check_live(n.a, where, allow)
+        check_live(n.b, where, allow)
+    elif isinstance(n, MatchFuel):
+        check_live(n.body, where, allow)
+    elif isinstance(n, Join):
+        need(idents(n.pat), n.body, "value of an `if`")
+        check_live(n.inner, where, allow)
+        check_live(n.body, where, allow)
 
 
 # ----------------------------------------------------------------------------- reads / writes / liveness
@@ -411,20 +502,40 @@ class Tr:
         self.top = top or self                  # shared: types of the Python names, emitted loop definitions, marks
         if top is None:
             self.types, self.defs, self.translated, self.kept, self.loopno = {}, [], set(), set(), [0]
+            self.cur_stmt = None
         self.defname = defname
         self.env, self.count, self.pre = {}, {}, []
+        self.used = set()                       # Lean names handed out in this definition
+        if top is None:
+            self.pyidents = set()               # identifiers of the Python function (set by `translate`)
         self.on_break = None
 
     # -- names
-    def fresh(self, py):
-        base = sanitize(py) or "v"
-        if base in LEAN_RESERVED or base == "fuel":
+    def fresh(self, py, synthetic=False):
+        """a Lean binder for the Python name `py` (`synthetic`: for a value the translator introduces itself -- a hoisted guard,
+        the popped element).  Within one generated definition no name is handed out twice, and a name the translator makes up (an
+        SSA version `x_k`, a synthetic name) is never an identifier of the Python function: a Python local that is SPELLED like an
+        SSA version of another name cannot be captured by it"""
+        own = sanitize(py)
+        base = own or "v"
+        if base in LEAN_RESERVED or base in SWEEP_RESERVED:
             base += "_"
         k = self.count.get(base, 0)
-        self.count[base] = k + 1
-        return base if k == 0 else "%s_%d" % (base, k)
+        while True:
+            cand = base if k == 0 else "%s_%d" % (base, k)
+            k += 1
+            if cand in self.used:
+                continue
+            if cand in self.top.pyidents and (synthetic or cand != own):
+                continue
+            break
+        self.count[base] = k
+        self.used.add(cand)
+        return cand
 
     def bind(self, py, ty, what=None):
+        if py in SPELLED or py in self.cfg["skip_calls"]:
+            raise Shape("the local name `%s` shadows a name that the translation resolves by its spelling" % py)
         self.top.types[py] = unify(self.top.types.get(py), ty, what or py)
         nm = self.fresh(py)
         self.env[py] = nm
@@ -432,6 +543,25 @@ class Tr:
 
     def ty(self, py):
         return self.top.types.get(py)
+
+    def no_alias(self, e, node, what):
+        """ALIASING: lists are translated as VALUES, so a list that is already stored somewhere (a name, an element) may not be
+        stored a second time -- in Python the two are one object, and a later `append` / `extend` / `pop` through one is seen
+        through the other.  The reviewed exceptions are the statement texts of `alias_ok` (printed in the header)"""
+        if is_list(e.ty) and is_ref(node):
+            self.alias_error("`%s` (%s)" % (ast.unparse(node), what))
+
+    def alias_error(self, what):
+        st = ast.unparse(self.top.cur_stmt) if self.top.cur_stmt is not None else ""
+        if st in self.cfg.get("alias_ok", ()):
+            return
+        raise Shape("aliasing: %s stores a list that is already stored elsewhere; lists are translated as values (line %d)"
+                    % (what, getattr(self.top.cur_stmt, "lineno", 0)))
+
+    def shallow(self, l, what):
+        """`sorted(l)`, `l[1:-1]`, a filtering comprehension, `x.extend(l)`, `enumerate(l)`: the new list shares the ELEMENTS of `l`"""
+        if is_list(l.ty) and is_list(l.ty[1]):
+            self.alias_error("%s of a list of lists" % what)
 
     def take_pre(self):
         p, self.pre = self.pre, []
@@ -444,7 +574,7 @@ class Tr:
         return node
 
     def hoist(self, text, ty, base="v"):
-        nm = self.fresh(base)
+        nm = self.fresh(base, synthetic=True)
         self.pre.append((nm, text))
         return E(nm, ty)
 
@@ -560,6 +690,7 @@ class Tr:
             v = self.expr(n.value)
             if not (isinstance(v.ty, tuple) and v.ty[0] == "list"):
                 raise Shape("slice of a non-list")
+            self.shallow(v, "a slice")
             return E("(%s.drop 1).dropLast" % par(v, 100), v.ty)
         v = self.expr(n.value)
         k = n.slice
@@ -619,6 +750,7 @@ class Tr:
             l = self.expr(n.args[0])
             if not (isinstance(l.ty, tuple) and l.ty[0] == "list"):
                 raise Shape("sorted of a non-list")
+            self.shallow(l, "sorted(…)")
             lm = n.keywords[0].value
             body = self.lam(lm.args.args[0].arg, l.ty[1], lambda nm: "fun %s => %s" % (nm, self.expr(lm.body, Lst(SA)).t))
             return E("pySortedBy (%s) %s" % (body, par(l, 100)), l.ty, 90)
@@ -629,8 +761,9 @@ class Tr:
         if expect is not None and isinstance(expect, tuple) and expect[0] == "list" and not (two and expect[1] is None):
             es = [self.expr(e, expect[1]) for e in n.elts]
             t = expect[1]
-            for e in es:
+            for e, nd in zip(es, n.elts):
                 t = unify(t, e.ty, ast.unparse(n))
+                self.no_alias(e, nd, "an element of a list display")
             return E("[%s]" % ", ".join(e.t for e in es), Lst(t))
         if two:
             want = expect if isinstance(expect, tuple) and expect[0] == "pair" else (XP_ if self.is_inf(n.elts[0]) else P_)
@@ -643,6 +776,8 @@ class Tr:
         if all(isinstance(e, ast.List) and len(e.elts) == 2 for e in n.elts):
             want = XP_ if any(self.is_inf(e.elts[0]) for e in n.elts) else P_
             es = [self.expr(e, want) for e in n.elts]
+            for e, nd in zip(es, n.elts):
+                self.no_alias(e, nd, "an element of a list display")
             return E("[%s]" % ", ".join(e.t for e in es), Lst(want))
         raise Shape("list literal outside the subset: %s" % ast.unparse(n))
 
@@ -656,12 +791,14 @@ class Tr:
         if g.ifs:
             if not (isinstance(n.elt, ast.Name) and n.elt.id == g.target.id):
                 raise Shape("filtering comprehension that also maps: %s" % ast.unparse(n))
+            self.shallow(l, "a filtering comprehension")
             body = self.lam(g.target.id, l.ty[1], lambda nm: "fun %s => %s" % (nm, self.as_bool(self.expr(g.ifs[0]))))
             return E("%s.filter (%s)" % (par(l, 100), body), l.ty, 90)
         out = []
 
         def f(nm):
             e = self.expr(n.elt)
+            self.no_alias(e, n.elt, "the element of a comprehension")
             out.append(e.ty)
             return "fun %s => %s" % (nm, e.t)
         body = self.lam(g.target.id, l.ty[1], f)
@@ -699,11 +836,13 @@ class Tr:
                 raise Shape("pop index is not an int")
             guard, new = "%s[%s]?" % (v.t, i.t), "%s.eraseIdx %s" % (v.t, par(i, 100))
         pre = self.take_pre()
-        popped = self.fresh("pop")
+        popped = self.fresh("pop", synthetic=True)
         nl = self.bind(lst.id, v.ty)
         lets = [(nl, new)]
         if targets is not None:
             names = target_names(targets)
+            if is_list(v.ty[1]):
+                self.alias_error("`%s` (a popped list may be stored elsewhere too)" % ast.unparse(call))
             if len(names) == 1:
                 lets.append((self.bind(names[0], v.ty[1]), popped))
             elif len(names) == 2 and isinstance(v.ty[1], tuple) and v.ty[1][0] == "pair":
@@ -718,6 +857,13 @@ class Tr:
 
     def stmt(self, s, kk, after, last):
         self.top.translated.add(id(s))
+        self.top.cur_stmt = s
+        if isinstance(s, (ast.Assign, ast.AugAssign)):
+            for t in (s.targets if isinstance(s, ast.Assign) else [s.target]):
+                for nm in target_names(t):
+                    if nm.startswith("self.") and nm not in self.cfg["ret"]:
+                        raise Shape("`%s = …`: a store to an attribute that is not a declared output %s of the translated statements"
+                                    % (nm, self.cfg["ret"]))
         if isinstance(s, ast.Pass):
             return kk()
         if isinstance(s, ast.Break):
@@ -734,12 +880,14 @@ class Tr:
                 names = target_names(t)
                 if isinstance(v, ast.Tuple) and len(v.elts) == len(names):
                     es = [self.expr(e) for e in v.elts]
+                    for e, nd in zip(es, v.elts):
+                        self.no_alias(e, nd, "a value of a tuple assignment")
                     pre = self.take_pre()
                     lets = [(self.bind(nm, e.ty), e.t) for nm, e in zip(names, es)]
                 else:
                     e = self.expr(v)
                     pre = self.take_pre()
-                    if not (len(names) == 2 and isinstance(e.ty, tuple) and e.ty[0] == "pair"):
+                    if not (len(names) == 2 and isinstance(e.ty, tuple) and e.ty[0] == "pair") or is_list(e.ty[1]) or is_list(e.ty[2]):
                         raise Shape("unpacking outside the subset: %s" % ast.unparse(s))
                     lets = [(self.bind(names[0], e.ty[1]), par(e, 100) + ".1"), (self.bind(names[1], e.ty[2]), par(e, 100) + ".2")]
                 node = kk()
@@ -750,6 +898,7 @@ class Tr:
             if isinstance(t, ast.Subscript) or len(names) != 1:
                 raise Shape("assignment outside the subset: %s" % ast.unparse(s))
             e = self.expr(v, self.ty(names[0]))
+            self.no_alias(e, v, "the value of an assignment")
             pre = self.take_pre()
             nm = self.bind(names[0], e.ty, ast.unparse(s))
             return self.with_pre(pre, Let(nm, e.t, kk()))
@@ -787,6 +936,7 @@ class Tr:
             if m == "insert" and len(c.args) == 2:
                 i = self.expr(c.args[0], SN)
                 x = self.expr(c.args[1], v.ty[1])
+                self.no_alias(x, c.args[1], "inserted")
                 pre = self.take_pre()
                 if i.ty != SN:
                     raise Shape("insert index is not an int")
@@ -794,6 +944,10 @@ class Tr:
                 return self.with_pre(pre, Let(nm, "pyInsert %s %s %s" % (par(i, 100), par(x, 100), v.t), kk()))
             if m in ("append", "extend") and len(c.args) == 1:
                 x = self.expr(c.args[0], v.ty[1] if m == "append" else v.ty)
+                if m == "append":
+                    self.no_alias(x, c.args[0], "appended")
+                elif not isinstance(c.args[0], (ast.List, ast.ListComp)):
+                    self.shallow(x, "`extend` by the elements")
                 pre = self.take_pre()
                 nm = self.bind(recv.id, Lst(x.ty) if m == "append" else x.ty, ast.unparse(s))
                 return self.with_pre(pre, Let(nm, "%s ++ %s" % (par(v, 65), "[%s]" % x.t if m == "append" else par(x, 66)), kk()))
@@ -803,6 +957,8 @@ class Tr:
                 raise Shape("%s is not a list of lists" % recv.value.id)
             i = self.expr(recv.slice, SN)
             x = self.expr(c.args[0], v.ty[1])
+            if not isinstance(c.args[0], (ast.List, ast.ListComp)):
+                self.shallow(x, "`extend` by the elements")
             pre = self.take_pre()
             if i.ty != SN:
                 raise Shape("index is not an int")
@@ -872,6 +1028,17 @@ class Tr:
         t.env0 = dict(t.env)                    # the names of the parameters
         return t
 
+    def live(self, name, binders, nodes, head=""):
+        """dead-store check of one loop definition: its bindings, and its parameters (each must be mentioned in its body)"""
+        allow = self.cfg.get("dead_ok", ())
+        seen = idents(head)
+        for n in nodes:
+            check_live(n, name, allow)
+            seen |= node_idents(n)
+        for b, _ in binders:
+            if b not in seen and b not in ("fuel", "range") and (name, b) not in allow:
+                raise Shape("dead store: the parameter `%s` of `%s` is never read" % (b, name))
+
     def emit(self, name, doc, binders, result_names, lines):
         rt = tuple_ty([self.ty(n) for n in result_names])
         sig = " ".join("(%s : %s)" % (b, t) for b, t in binders)
@@ -879,7 +1046,7 @@ class Tr:
 
     def call_loop(self, name, args, results, kk):
         pat = tup([self.bind(n, self.ty(n)) for n in results])
-        return MatchOpt("%s %s" % (name, " ".join(args)), pat, kk())
+        return MatchOpt("%s %s" % (name, " ".join(args)), pat, kk(), strict=True)
 
     def exit_ret(self, results):
         """the values a loop definition returns here; a name that is read after the loop but is not bound on this path (the
@@ -921,6 +1088,7 @@ class Tr:
                          loop_items + after)
         ir = sub.with_pre(pre, Ite(test.t, MatchFuel(body), exit_ir))
         binders = [(sub.env0[n], lean_ty(self.ty(n))) for n in inv] + [("fuel", "Nat")] + [(sub.env0[n], lean_ty(self.ty(n))) for n in carried]
+        self.live(name, binders, [ir])
         self.emit(name, header, binders, results, render(ir, "  "))
         args = [self.env[n] for n in inv] + [self.fuel_arg(fuel_list)] + [self.env[n] for n in carried]
         return self.call_loop(name, args, results, kk)
@@ -939,9 +1107,23 @@ class Tr:
             return self.for_range(s, header, kk, after)
         raise Shape("loop outside the subset: %s" % header)
 
+    def loop_vars(self, header, names, after):
+        """the loop variables live in the loop's own definition only: a variable that is bound before the loop, or read behind it
+        (in Python: its last value), is outside the subset"""
+        for v in names:
+            if v == "_":
+                continue
+            if v in self.env:
+                raise Shape("`%s`: the loop variable `%s` is a name that is bound before the loop" % (header, v))
+            if first_use(after, v, self.cfg) == "read":
+                raise Shape("`%s`: the loop variable `%s` is read behind the loop" % (header, v))
+
     def for_enumerate(self, s, header, lst, kk, after):
         name, fuel_list = self.loop_name(header)
         idx, item = s.target.elts[0].id, s.target.elts[1].id
+        self.loop_vars(header, [idx, item], after)
+        if idx == item or "_" in (idx, item):
+            raise Shape("`%s`: loop variables" % header)
         if lst not in assigned(s.body, self.cfg):
             raise Shape("`%s`: the body does not mutate `%s` (not a form of the subset)" % (header, lst))
         if fuel_list is None:
@@ -952,6 +1134,8 @@ class Tr:
         inv = [n for n in inv if n not in (idx, item)]
         if lst not in self.env or not (isinstance(self.ty(lst), tuple) and self.ty(lst)[0] == "list"):
             raise Shape("`%s`: `%s` is not a list" % (header, lst))
+        self.top.cur_stmt = s
+        self.shallow(E(self.env[lst], self.ty(lst)), "`enumerate`")
         sub = self.sub(name, inv + carried)
         i0 = sub.bind(idx, SN)
         exit_ir = sub.exit_ret(results)
@@ -963,6 +1147,7 @@ class Tr:
             + render(MatchFuel(body), "  ")
         binders = [(sub.env0[n], lean_ty(self.ty(n))) for n in inv] + [("fuel", "Nat"), (i0, "Nat")] \
             + [(sub.env0[n], lean_ty(self.ty(n))) for n in carried]
+        self.live(name, binders, [exit_ir, body], "%s %s" % (sub.env0[lst], i0))
         self.emit(name, header, binders, results, lines)
         args = [self.env[n] for n in inv] + [self.fuel_arg(fuel_list), "0"] + [self.env[n] for n in carried]
         return self.call_loop(name, args, results, kk)
@@ -974,6 +1159,7 @@ class Tr:
         if n.ty != SN:
             raise Shape("range of a non-int")
         var = s.target.id
+        self.loop_vars(header, [var], after)
         if self.lst_mutated_iter(s):
             raise Shape("`%s`: the body changes what the range was computed from" % header)
         loop_items = [("stmts", s.body)]
@@ -993,6 +1179,7 @@ class Tr:
                          loop_items + after)
         lines = ["  match range with", "  | [] =>"] + render(exit_ir, "    ") + ["  | %s :: rest =>" % v0] + render(body, "  ")
         binders = [(sub.env0[x], lean_ty(self.ty(x))) for x in inv] + [("range", "List Nat")] + [(sub.env0[x], lean_ty(self.ty(x))) for x in carried]
+        self.live(name, binders, [exit_ir, body])
         self.emit(name, header, binders, results, lines)
         args = [self.env[x] for x in inv] + ["(List.range %s)" % par(n, 100)] + [self.env[x] for x in carried]
         return self.with_pre(pre, self.call_loop(name, args, results, kk))
@@ -1056,6 +1243,26 @@ def skeleton(body, translated, kept):
     return ast.unparse(ast.fix_missing_locations(ast.Module(body=go(body), type_ignores=[])))
 
 
+def py_identifiers(fn):
+    """every identifier of the Python function, as the translator would spell it in Lean: names, parameters, `self.attr`"""
+    out = set()
+    for n in ast.walk(fn):
+        if isinstance(n, ast.Name):
+            out.add(n.id)
+        elif isinstance(n, ast.arg):
+            out.add(n.arg)
+        elif isinstance(n, ast.Attribute):
+            if isinstance(n.value, ast.Name):
+                out.add(sanitize("%s.%s" % (n.value.id, n.attr)))
+        elif isinstance(n, (ast.FunctionDef, ast.ClassDef)):
+            out.add(n.name)
+        elif isinstance(n, (ast.Global, ast.Nonlocal)):
+            out.update(n.names)
+        elif isinstance(n, ast.keyword) and n.arg:
+            out.add(n.arg)
+    return out | {sanitize(x) for x in out}
+
+
 def translate(fn, cfgs):
     """-> ({lean name: [def texts] | error}, skeleton text)"""
     body = strip_doc(fn.body)
@@ -1064,6 +1271,7 @@ def translate(fn, cfgs):
         try:
             stmts = pick_region(body, cfg)
             tr = Tr(cfg)
+            tr.pyidents = py_identifiers(fn)
             binders = []
             for py, ty in cfg["params"]:
                 binders.append((tr.bind(py, ty), lean_ty(ty)))
@@ -1077,6 +1285,7 @@ def translate(fn, cfgs):
             node = tr.block(stmts, fin, [("read", rets)])
             if tr.pre:
                 raise Shape("internal: pending guards")
+            tr.live(cfg["lean"], binders, [node])
             rt = tuple_ty([tr.ty(r) for r in rets])
             defs = [t for _, t in tr.defs]
             defs.append("/-- %s -/\ndef %s %s : Option %s :=\n%s" % (cfg["doc"], cfg["lean"], " ".join("(%s : %s)" % b for b in binders), rt,
@@ -1134,6 +1343,11 @@ TARGETS = [
               "`Err.indexError`)")]),
     dict(COMMON, lean="compute_landscape", region="behind",
          params=[("A", LP_)], ret=["self.max_depth", "self.critical_pairs"],
+         # reviewed dead stores (generated definition, binder): `b` of `b, d = (b_prime, d_prime)` at the end of a round of the
+         # inner loop is read by no translated statement (the next `b, d = A.pop(0)` overwrites it; only `verboseprint` reads it)
+         dead_ok=[("inner_loop", "b")],
+         # the one statement that stores a list that is already stored elsewhere (header: "lists are VALUES")
+         alias_ok=["L.append(L[-1])"],
          # loop header -> (name of its definition, work list whose length + 1 is the fuel at loop entry)
          loops={"while A": ("outer_loop", "A"),
                 "while L[landscape_idx][-1] != [np.inf, 0]": ("inner_loop", "A"),
@@ -1318,6 +1532,15 @@ def manifest_note(key):
 
 # ----------------------------------------------------------------------------- output
 
+def allow_lists():
+    out = []
+    for cfg in TARGETS:
+        out.append("  * `%s`: dead_ok (definition, binder never read) = %s; alias_ok (statements that store a stored list again) = %s"
+                   % (cfg["lean"], ", ".join("(%s, %s)" % x for x in cfg.get("dead_ok", ())) or "none",
+                      ", ".join("`%s`" % x for x in cfg.get("alias_ok", ())) or "none"))
+    return "\n".join(out)
+
+
 def header(key):
     py, out, ns, imports, prop, opens = FILES[key]
     doc = __doc__.strip().split("\n")
@@ -1341,13 +1564,14 @@ def header(key):
         "Between the two translated regions the model has `finiteBars` (every remaining death finite: the property's domain), which is\n"
         "not a statement of the source; the constructor that calls the method is pinned in Generated/SrcPLArith.lean.\n\n"
         "%s\n"
+        "Reviewed allow-lists:\n%s\n"
         "A source outside the subset gives `def srcShape_<f> : Bool := false`, and `srcShape_<f>_recognised` fails.\n"
         "-/\n"
         "set_option linter.unusedVariables false\n"
         "set_option linter.unusedSectionVars false\n"
         "set_option linter.unusedSimpArgs false\n"
         "set_option linter.unnecessarySeqFocus false\n\n"
-        "namespace %s\nopen %s\n" % (imports, py, prop, conv, ns, opens))
+        "namespace %s\nopen %s\n" % (imports, py, prop, conv, allow_lists(), ns, opens))
 
 
 def render_file(key, root):
